@@ -29,7 +29,7 @@ CHECKS = {
  'C09': ('cmdspec', 'TLC-simulated histories replayed with real commands, trash-list compared after every step',
          'ListIsBag is a TLC invariant of Trash.tla; simulated histories are replayed with real commands and after every step real trash-list must print exactly the bag of the specification state; observed steps are validated by TLC (TrashTrace).', '6 C09'),
  'C10': ('cmdspec', 'TLC-generated trash-empty transitions at the DAYS boundary on the real command',
-         'EmptyApply/Expired of Trash.tla define the purge set; TLC enumerates dates exactly DAYS days ago and one second either side, undated, future, orphans, strays, in three kinds of trash directory; the real trash-empty must remove exactly that set and keep the rest byte-identical.', '6 C10'),
+         'EmptyApply/Expired of Trash.tla define the purge set; TLC enumerates dates exactly DAYS days ago and one second either side, undated, future, orphans, strays, in three kinds of trash directory; the real trash-empty must remove exactly that set and keep the rest byte-identical. The embedding of the abstract clock into calendar time is proved with TLAPS (spec/DatesProof.tla); calendar observations of the real command are judged by TLC (FunTrace).', '6 C10'),
  'C11': ('cmdspec', 'TLC action property PurgeFrame + transition tests with link payloads and operation-trace frame check',
          'PurgeFrame is checked by TLC; trash-empty and trash-rm are run on trashes whose payloads are links / trees with outside links; everything outside files/ and info/ must be unchanged and the traced mutating operations must all lie inside them.', '6 C11'),
  'C12': ('cmdspec', 'TLC-generated trash-rm transitions on the real command',
